@@ -16,10 +16,21 @@ pub use ::std::*;
 
 pub mod thread {
     pub use shuttle::thread::*;
+
+    /// `std::thread::available_parallelism` over the seam: the simulated CPU count if one is
+    /// installed (see `num_cpus::set_override`), else the real value.
+    pub fn available_parallelism() -> ::std::io::Result<::std::num::NonZeroUsize> {
+        match super::num_cpus::overridden() {
+            Some( n ) => Ok( ::std::num::NonZeroUsize::new( n.max( 1 ) ).unwrap() ),
+            None => ::std::thread::available_parallelism(),
+        }
+    }
 }
 
 pub mod sync {
     pub use shuttle::sync::*;
+    // not scheduling points: passed through
+    pub use ::std::sync::{LazyLock, OnceLock};
 }
 
 pub mod num_cpus {
@@ -33,6 +44,12 @@ pub mod num_cpus {
     /// Install (Some) or remove (None) the simulated CPU count for this OS thread.
     pub fn set_override( n: Option<usize> ) {
         OVERRIDE.with(|o| o.set( n ));
+    }
+
+    /// The installed override, counting the consultation.
+    pub fn overridden() -> Option<usize> {
+        CALLS.with(|c| c.set( c.get() + 1 ));
+        OVERRIDE.with(|o| o.get())
     }
 
     /// Number of times `get`/`get_physical` was consulted on this OS thread.
